@@ -395,7 +395,7 @@ func (r *Runner) timesOf(rows []Row) string {
 	return "[" + strings.Join(s, " ") + "]"
 }
 
-var scratchPath = regexp.MustCompile(`[^\s:"']*kshist-v[12]-[0-9]+`)
+var scratchPath = regexp.MustCompile(`[^\s:"']*kshist-(v[12]|cli)-[0-9]+(/keys)?`)
 
 // errs renders an error without the per-case scratch directory (messages must be reproducible).
 func errs(err error) string {
